@@ -19,6 +19,7 @@ import (
 func init() {
 	core.Register(&core.Prop{
 		ID:      "C11",
+		MaxBatch: 300,
 		Level:   "exploration",
 		Workers: 16,
 		Rule: "seeded push histories of 2-3 clients on each of the four types over the real service; the background snapshot update of a chosen push is held at one of its database commands (find -_-Snapshots, find -_-Operations, insert -_-Snapshots, update <user collection>) while later pushes commit and start their own updates, or all updates run freely back to back with random delays, or the whole background goroutine of one push is held back and starts only after the update of a later push has completed (out-of-order updates); monitors over the store and the command log: every -_-Snapshots document (duid, v) restored into a fresh datatype equals the replay of stored operations 1..v; every write to the user collection carries _orda_ver_ = v and (after the BSON round trip the server performs) the JSON view of replay(1..v); per key the written versions never decrease (also when the document itself has a user key named _orda_ver_); snapshot.Manager.GetLatestDatatype() equals the full replay for every position of the latest snapshot (newer snapshot documents are removed step by step); " +
